@@ -249,10 +249,16 @@ func extreme(rng *rand.Rand, bits int) uint64 {
 // and boundary length must stay small (a value with 256 transactions has some 770 prefixes: gigabytes of records)
 var noLimit = false
 
+// exactlyOne makes every sequence one element long
+var exactlyOne = false
+
 // Force, when not 99, makes every slice with a small maximum length exactly max+Force long (the systematic part of a run)
 var Force = 99
 
 func length(rng *rand.Rand, around, max int) int {
+	if exactlyOne {
+		return 1
+	}
 	if max > 0 && max <= 600 && Force != 99 {
 		return max + Force
 	}
@@ -429,11 +435,11 @@ func Run(pkg string, codecs []Codec) error {
 		}
 		// ---- the systematic part: every length prefix of a small value set to every boundary length, cuts and tails around
 		// the end, and values whose bounded slices are exactly at, one below and one above their maximum
-		{
+		for bi := 0; bi < 2; bi++ { // two small values: a random one, and one with exactly one element in every sequence (all nested prefixes exist)
 			obj := c.New()
-			noLimit = true
+			noLimit, exactlyOne = true, bi == 1
 			Fill(rng, reflect.ValueOf(obj).Elem(), 1, 0)
-			noLimit = false
+			noLimit, exactlyOne = false, false
 			base := encoder.Serialize(obj)
 			pfxs := []Pfx{}
 			Prefixes(reflect.ValueOf(obj), 0, 0, &pfxs)
